@@ -274,7 +274,7 @@ func (qe *quantExpander) expand(t *Term, bound map[string]bool) *Term {
 }
 
 // expandQuantifiers rewrites assumptions and goal with explicit instances.
-func expandQuantifiers(assumes []*Term, goal *Term) ([]*Term, *Term) {
+func expandQuantifiers(assumes []*Term, goal *Term, rounds int) ([]*Term, *Term) {
 	hasQ := false
 	for _, a := range assumes {
 		if strings.Contains(a.String(), "(forall") || strings.Contains(a.String(), "(exists") {
@@ -334,24 +334,233 @@ func expandQuantifiers(assumes []*Term, goal *Term) ([]*Term, *Term) {
 			assumes = append(assumes, Implies(q, inst))
 		}
 	}
-	qe := &quantExpander{cap: 600}
-	seen := map[string]bool{}
+	// Rounds: instances introduce new ground reads (e.g. the source position of a
+	// copied element), which in turn are instantiation points for other facts.
+	out := assumes
+	g := goal
+	prevReads := -1
+	for round := 0; round < rounds; round++ {
+		qe := &quantExpander{cap: 900}
+		seen := map[string]bool{}
+		for _, a := range out {
+			collectGroundReads(a, nil, &qe.reads, seen)
+		}
+		if g != nil {
+			collectGroundReads(g, nil, &qe.reads, seen)
+		}
+		if len(qe.reads) == prevReads {
+			break
+		}
+		prevReads = len(qe.reads)
+		for i := range qe.reads {
+			qe.reads[i].base = baseArray(qe.reads[i].arr).String()
+		}
+		next := make([]*Term, len(assumes))
+		for i, a := range assumes {
+			next[i] = qe.expand(a, nil)
+		}
+		out = next
+		if goal != nil {
+			g = qe.expand(goal, nil)
+		}
+	}
+	return out, g
+}
+
+// ---------------------------------------------------------------------------
+// Quantifier-free weakening.  Γ = assumptions ∪ {¬goal}.  Every closed
+// quantifier occurrence Q is replaced by a quantifier-free R such that Γ only
+// gets weaker (so unsat(Γ') implies unsat(Γ)): with a Skolem constant sk chosen
+// so that (∀k.B) ⇔ B(sk) (a counterexample if there is one), resp. (∃k.B) ⇔ B(sk),
+//   Γ-positive ∀k.B  ↦  B(sk) ∧ B(t1) ∧ … ∧ B(tn)      (Q ⇒ R)
+//   Γ-negative ∀k.B  ↦  B(sk)                          (R ⇒ Q)
+//   Γ-positive ∃k.B  ↦  B(sk)
+//   Γ-negative ∃k.B  ↦  B(sk) ∨ B(t1) ∨ … ∨ B(tn)
+//   mixed polarity    ↦  B(sk)
+// where t1…tn are the ground indices at which the arrays read in B are read
+// elsewhere in Γ.  The result is decidable (arrays + linear integers + EUF).
+// ---------------------------------------------------------------------------
+
+type qfCtx struct {
+	reads []groundRead
+	sk    map[string]*Term
+	nsk   int
+	insts int
+	cap   int
+}
+
+func (c *qfCtx) skolem(q *Term) *Term {
+	key := q.String()
+	if s, ok := c.sk[key]; ok {
+		return s
+	}
+	c.nsk++
+	s := Var("qsk!"+itoa(c.nsk)+"!"+shortHash(key), SInt)
+	c.sk[key] = s
+	return s
+}
+
+func (c *qfCtx) candidates(q *Term) []*Term {
+	k := q.Bound[0]
+	var brs []groundRead
+	bodyReads(q.Args[0], k, &brs)
+	cands := map[string]*Term{}
+	var order []string
+	for _, br := range brs {
+		bb := baseArray(br.arr).String()
+		for _, gr := range c.reads {
+			if gr.base != bb {
+				continue
+			}
+			t := solveIndex(br.idx, k, gr.idx)
+			if t == nil {
+				continue
+			}
+			key := t.String()
+			if _, ok := cands[key]; !ok {
+				cands[key] = t
+				order = append(order, key)
+			}
+		}
+	}
+	sort.Slice(order, func(i, j int) bool {
+		if len(order[i]) != len(order[j]) {
+			return len(order[i]) < len(order[j])
+		}
+		return order[i] < order[j]
+	})
+	if len(order) > 24 {
+		order = order[:24]
+	}
+	var out []*Term
+	for _, key := range order {
+		out = append(out, cands[key])
+	}
+	return out
+}
+
+// qf rewrites t; pol is the polarity of t inside Γ: +1, -1 or 0 (both).
+func (c *qfCtx) qf(t *Term, pol int, depth int) *Term {
+	switch t.Op {
+	case "var", "int", "bool":
+		return t
+	case "forall", "exists":
+		if len(t.Bound) != 1 || depth > 4 {
+			// keep (the query is then not quantifier-free; the solver copes or answers unknown)
+			return t
+		}
+		k := t.Bound[0]
+		sk := c.skolem(t)
+		body := t.Args[0]
+		main := c.qf(subst(body, map[string]*Term{k.Name: sk}), pol, depth+1)
+		universalHyp := (t.Op == "forall" && pol > 0) || (t.Op == "exists" && pol < 0)
+		if !universalHyp {
+			return main
+		}
+		parts := []*Term{main}
+		for _, cand := range c.candidates(t) {
+			if c.insts >= c.cap {
+				break
+			}
+			c.insts++
+			parts = append(parts, c.qf(subst(body, map[string]*Term{k.Name: cand}), pol, depth+1))
+		}
+		if t.Op == "forall" {
+			return And(parts...)
+		}
+		return Or(parts...)
+	case "app":
+		args := make([]*Term, len(t.Args))
+		switch t.Name {
+		case "not":
+			args[0] = c.qf(t.Args[0], -pol, depth)
+		case "=>":
+			args[0] = c.qf(t.Args[0], -pol, depth)
+			args[1] = c.qf(t.Args[1], pol, depth)
+		case "and", "or":
+			for i, a := range t.Args {
+				args[i] = c.qf(a, pol, depth)
+			}
+		case "ite":
+			args[0] = c.qf(t.Args[0], 0, depth)
+			p := pol
+			if t.Sort != SBool {
+				p = 0
+			}
+			args[1] = c.qf(t.Args[1], p, depth)
+			args[2] = c.qf(t.Args[2], p, depth)
+		default:
+			for i, a := range t.Args {
+				args[i] = c.qf(a, 0, depth)
+			}
+		}
+		same := true
+		for i := range args {
+			if args[i] != t.Args[i] {
+				same = false
+			}
+		}
+		if same {
+			return t
+		}
+		return &Term{Op: "app", Name: t.Name, Sort: t.Sort, Args: args}
+	}
+	return t
+}
+
+func hasQuantifier(t *Term) bool {
+	if t.Op == "forall" || t.Op == "exists" {
+		return true
+	}
+	for _, a := range t.Args {
+		if hasQuantifier(a) {
+			return true
+		}
+	}
+	return false
+}
+
+// qfWeaken returns a quantifier-free weakening of (assumes, goal).
+func qfWeaken(assumes []*Term, goal *Term, rounds int) ([]*Term, *Term) {
+	any := goal != nil && hasQuantifier(goal)
 	for _, a := range assumes {
-		collectGroundReads(a, nil, &qe.reads, seen)
+		if any {
+			break
+		}
+		any = hasQuantifier(a)
 	}
-	if goal != nil {
-		collectGroundReads(goal, nil, &qe.reads, seen)
+	if !any {
+		return assumes, goal
 	}
-	for i := range qe.reads {
-		qe.reads[i].base = baseArray(qe.reads[i].arr).String()
-	}
-	out := make([]*Term, len(assumes))
-	for i, a := range assumes {
-		out[i] = qe.expand(a, nil)
-	}
-	var g *Term
-	if goal != nil {
-		g = qe.expand(goal, nil)
+	sk := map[string]*Term{}
+	out := assumes
+	g := goal
+	prev := -1
+	for round := 0; round < rounds; round++ {
+		c := &qfCtx{sk: sk, cap: 1500}
+		c.nsk = len(sk)
+		seen := map[string]bool{}
+		for _, a := range out {
+			collectGroundReads(a, nil, &c.reads, seen)
+		}
+		if g != nil {
+			collectGroundReads(g, nil, &c.reads, seen)
+		}
+		if len(c.reads) == prev {
+			break
+		}
+		prev = len(c.reads)
+		for i := range c.reads {
+			c.reads[i].base = baseArray(c.reads[i].arr).String()
+		}
+		next := make([]*Term, len(assumes))
+		for i, a := range assumes {
+			next[i] = c.qf(a, +1, 0)
+		}
+		out = next
+		if goal != nil {
+			g = c.qf(goal, -1, 0)
+		}
 	}
 	return out, g
 }
